@@ -1,45 +1,129 @@
 //! C20: random generation with a scripted RngCore (byte stream given in the request).
+//!
+//! The scripted RNG has two exhaustion behaviours: the default one panics with `Exhausted` from every
+//! `RngCore` method; ops with the suffix `_err` run the same request with a script whose
+//! `try_fill_bytes` returns `Err` instead (the path taken by `Fill for Slice`'s `?` and by
+//! `Rng::fill`'s "Rng::fill failed" panic).  Both are reported as `exhausted`.
 use bnum_verif_harness::*;
 use rand::distributions::uniform::{SampleUniform, UniformSampler};
 use rand::distributions::{Distribution, Standard, Uniform};
-use rand::{Rng, RngCore};
+use rand::{Fill, Rng, RngCore};
 
-struct Script { data: Vec<u8>, pos: usize }
+struct Script { data: Vec<u8>, pos: usize, err_mode: bool, failed: bool }
 struct Exhausted;
 impl RngCore for Script {
     fn next_u32(&mut self) -> u32 { let mut b = [0u8; 4]; self.fill_bytes(&mut b); u32::from_le_bytes(b) }
     fn next_u64(&mut self) -> u64 { let mut b = [0u8; 8]; self.fill_bytes(&mut b); u64::from_le_bytes(b) }
     fn fill_bytes(&mut self, dest: &mut [u8]) {
-        if self.pos + dest.len() > self.data.len() { std::panic::panic_any(Exhausted); }
+        if self.pos + dest.len() > self.data.len() { self.failed = true; std::panic::panic_any(Exhausted); }
         dest.copy_from_slice(&self.data[self.pos..self.pos + dest.len()]);
         self.pos += dest.len();
     }
-    fn try_fill_bytes(&mut self, dest: &mut [u8]) -> Result<(), rand::Error> { self.fill_bytes(dest); Ok(()) }
+    fn try_fill_bytes(&mut self, dest: &mut [u8]) -> Result<(), rand::Error> {
+        if self.err_mode && self.pos + dest.len() > self.data.len() {
+            self.failed = true;
+            return Err(rand::Error::from(core::num::NonZeroU32::new(rand::Error::CUSTOM_START).unwrap()));
+        }
+        self.fill_bytes(dest);
+        Ok(())
+    }
 }
 
-fn with_rng<T: Out>(bytes: &str, f: impl FnOnce(&mut Script) -> T) -> String {
-    let mut rng = Script { data: parse_bytes(bytes), pos: 0 };
+/// answer of a sampling closure: `S(x)@pos` / `[..]@pos`; `None` from the closure = an `Err` of the RNG
+fn with_rng<T: Out>(bytes: &str, err_mode: bool, f: impl FnOnce(&mut Script) -> Option<T>) -> String {
+    let mut rng = Script { data: parse_bytes(bytes), pos: 0, err_mode, failed: false };
     let r = std::panic::catch_unwind(std::panic::AssertUnwindSafe(|| f(&mut rng)));
     match r {
-        Ok(x) => { let o = x.out(); if o.starts_with('[') { format!("{}@{}", o, rng.pos) } else { format!("S({})@{}", o, rng.pos) } }
-        Err(e) => if e.is::<Exhausted>() { "exhausted".into() } else { "P".into() },
+        Ok(Some(x)) => { let o = x.out(); if o.starts_with('[') { format!("{}@{}", o, rng.pos) } else { format!("S({})@{}", o, rng.pos) } }
+        Ok(None) => if rng.failed { "exhausted".into() } else { "Err-without-exhaustion".into() },
+        Err(e) => if e.is::<Exhausted>() || rng.failed { "exhausted".into() } else { "P".into() },
     }
+}
+
+/// view `&mut [T]` as `&mut bnum::random::Slice<T>` (the wrapper `rand::Fill` is implemented for)
+fn as_slice_wrapper<T>(s: &mut [T]) -> &mut bnum::random::Slice<T> {
+    unsafe { &mut *(s as *mut [T] as *mut bnum::random::Slice<T>) }
+}
+
+/// Complete enumeration of the RNG words of a narrow type (BITS <= 16): for every word `v` the stream
+/// is `v` followed by the all-zero word (which every range accepts), so no draw exhausts the stream;
+/// a draw that consumes one word accepted `v`.  `pats[i]` = pattern of the value returned for word i,
+/// `acc[i]` = accepted at the first word.  Digest: see `enum_digest`.
+fn enum_digest(bits: usize, res: &[(u64, bool)]) -> String {
+    let m = 1u64 << bits;
+    let mut cnt = vec![0u64; m as usize];
+    let (mut rej, mut h) = (0u64, 0u64);
+    for (v, &(x, acc)) in res.iter().enumerate() {
+        if acc { cnt[x as usize] += 1; } else { rej += 1; }
+        let code = if acc { x } else { m + x };
+        h += (v as u64 + 1) * (code + 1);
+    }
+    let vals = cnt.iter().filter(|&&c| c > 0).count();
+    let mn = cnt.iter().filter(|&&c| c > 0).min().copied().unwrap_or(0);
+    let mx = cnt.iter().max().copied().unwrap_or(0);
+    format!("rej={};vals={};min={};max={};h={}", rej, vals, mn, mx, h)
 }
 
 macro_rules! ops {
     ($T:ty, $op:expr, $a:expr) => {{
         let a: &[&str] = $a;
         let v = |i: usize| <$T>::from_hex(a[i]);
-        match $op {
-            "sample_single" => Some(with_rng(a[2], |r| <<$T as SampleUniform>::Sampler as UniformSampler>::sample_single(v(0), v(1), r))),
-            "sample_single_inclusive" => Some(with_rng(a[2], |r| <<$T as SampleUniform>::Sampler as UniformSampler>::sample_single_inclusive(v(0), v(1), r))),
-            "uniform_new" => Some(with_rng(a[2], |r| Uniform::new(v(0), v(1)).sample(r))),
-            "uniform_new_inclusive" => Some(with_rng(a[2], |r| Uniform::new_inclusive(v(0), v(1)).sample(r))),
-            "gen_range" => Some(with_rng(a[2], |r| r.gen_range(v(0)..v(1)))),
-            "gen_range_inclusive" => Some(with_rng(a[2], |r| r.gen_range(v(0)..=v(1)))),
-            "standard" => Some(with_rng(a[0], |r| { let x: $T = Standard.sample(r); x })),
-            "fill" => Some(with_rng(a[1], |r| { let mut s = vec![<$T>::from_hex("0"); a[0].parse().unwrap()]; bnum::random::try_fill_slice(&mut s, r).unwrap(); s })),
-            "fill_each" => Some(with_rng(a[1], |r| { let k: usize = a[0].parse().unwrap(); (0..k).map(|_| r.gen::<$T>()).collect::<Vec<$T>>() })),
+        let (op, em) = match $op.strip_suffix("_err") { Some(o) => (o, true), None => ($op, false) };
+        const BY: usize = <$T as Pat>::BYTES;
+        match op {
+            "sample_single" => Some(with_rng(a[2], em, |r| Some(<<$T as SampleUniform>::Sampler as UniformSampler>::sample_single(v(0), v(1), r)))),
+            "sample_single_inclusive" => Some(with_rng(a[2], em, |r| Some(<<$T as SampleUniform>::Sampler as UniformSampler>::sample_single_inclusive(v(0), v(1), r)))),
+            "uniform_new" => Some(with_rng(a[2], em, |r| Some(Uniform::new(v(0), v(1)).sample(r)))),
+            "uniform_new_inclusive" => Some(with_rng(a[2], em, |r| Some(Uniform::new_inclusive(v(0), v(1)).sample(r)))),
+            // `UniformSampler::new(_inclusive)` + `UniformSampler::sample` called directly, and `Uniform::from(range)`
+            "sampler_new" => Some(with_rng(a[2], em, |r| Some(<<$T as SampleUniform>::Sampler as UniformSampler>::new(v(0), v(1)).sample(r)))),
+            "sampler_new_inclusive" => Some(with_rng(a[2], em, |r| Some(<<$T as SampleUniform>::Sampler as UniformSampler>::new_inclusive(v(0), v(1)).sample(r)))),
+            "uniform_from" => Some(with_rng(a[2], em, |r| Some(r.sample(Uniform::from(v(0)..v(1)))))),
+            "uniform_from_inclusive" => Some(with_rng(a[2], em, |r| Some(r.sample(Uniform::from(v(0)..=v(1)))))),
+            "gen_range" => Some(with_rng(a[2], em, |r| Some(r.gen_range(v(0)..v(1))))),
+            "gen_range_inclusive" => Some(with_rng(a[2], em, |r| Some(r.gen_range(v(0)..=v(1))))),
+            // one stored sampler, k draws:  uniform_many cfg incl low high k bytes
+            "uniform_many" => Some(with_rng(a[4], em, |r| {
+                let u = if parse_bool(a[0]) { Uniform::new_inclusive(v(1), v(2)) } else { Uniform::new(v(1), v(2)) };
+                let k: usize = a[3].parse().unwrap();
+                Some((0..k).map(|_| u.sample(r)).collect::<Vec<$T>>())
+            })),
+            "standard" => Some(with_rng(a[0], em, |r| { let x: $T = Standard.sample(r); Some(x) })),
+            "fill" => Some(with_rng(a[1], em, |r| { let mut s = vec![<$T>::from_hex("0"); a[0].parse().unwrap()]; bnum::random::try_fill_slice(&mut s, r).ok().map(|_| s) })),
+            // the `rand::Fill` impl reached through the trait and through `Rng::fill` / `Rng::try_fill`
+            "fill_trait" => Some(with_rng(a[1], em, |r| { let mut s = vec![<$T>::from_hex("0"); a[0].parse().unwrap()]; Fill::try_fill(as_slice_wrapper(&mut s[..]), r).ok().map(|_| s) })),
+            "rng_fill" => Some(with_rng(a[1], em, |r| { let mut s = vec![<$T>::from_hex("0"); a[0].parse().unwrap()]; r.fill(as_slice_wrapper(&mut s[..])); Some(s) })),
+            "rng_try_fill" => Some(with_rng(a[1], em, |r| { let mut s = vec![<$T>::from_hex("0"); a[0].parse().unwrap()]; r.try_fill(as_slice_wrapper(&mut s[..])).ok().map(|_| s) })),
+            "fill_each" => Some(with_rng(a[1], em, |r| { let k: usize = a[0].parse().unwrap(); Some((0..k).map(|_| r.gen::<$T>()).collect::<Vec<$T>>()) })),
+            // enum_words cfg which low high   (which = ssi | ss | gri | gr | uni | un; BITS <= 16)
+            "enum_words" => {
+                if BY > 2 { return Some("bad-width".into()); }
+                let bits = BY * 8;
+                let r = std::panic::catch_unwind(std::panic::AssertUnwindSafe(|| {
+                    let (lo, hi) = (v(1), v(2));
+                    let sampler = match a[0] { "uni" => Some(Uniform::new_inclusive(lo, hi)), "un" => Some(Uniform::new(lo, hi)), _ => None };
+                    let mut res = Vec::with_capacity(1 << bits);
+                    for w in 0..(1u32 << bits) {
+                        let mut data = w.to_le_bytes()[..BY].to_vec();
+                        data.extend(std::iter::repeat(0u8).take(BY));
+                        let mut rng = Script { data, pos: 0, err_mode: false, failed: false };
+                        let x: $T = match a[0] {
+                            "ssi" => <<$T as SampleUniform>::Sampler as UniformSampler>::sample_single_inclusive(lo, hi, &mut rng),
+                            "ss" => <<$T as SampleUniform>::Sampler as UniformSampler>::sample_single(lo, hi, &mut rng),
+                            "gri" => rng.gen_range(lo..=hi),
+                            "gr" => rng.gen_range(lo..hi),
+                            "uni" | "un" => sampler.as_ref().unwrap().sample(&mut rng),
+                            _ => panic!("bad enum_words kind"),
+                        };
+                        let mut le = x.pat_to_le(); le.resize(8, 0);
+                        res.push((u64::from_le_bytes(le[..8].try_into().unwrap()), rng.pos == BY));
+                    }
+                    enum_digest(bits, &res)
+                }));
+                Some(match r { Ok(s) => s, Err(e) => if e.is::<Exhausted>() { "exhausted".into() } else { "P".into() } })
+            }
+            // check_in_range cfg low high x incl : the crate's own `PartialOrd` through `Range(Inclusive)::contains`
+            "check_in_range" => { let b: bool = if parse_bool(a[3]) { (v(0)..=v(1)).contains(&v(2)) } else { (v(0)..v(1)).contains(&v(2)) }; Some(b.out()) },
             _ => None,
         }
     }};
